@@ -198,6 +198,8 @@ pub fn digest(files: &std::collections::HashMap<&'static str, String>) -> Value 
   let mut parse_errors = vec![];
   let mut impls: Vec<(String, String, String)> = vec![]; // (file, trait, self type)
   let mut hdr_opt: Vec<(String, String)> = vec![]; // (header struct, member read as Option by the HeaderMap conversion)
+  let mut hdr_parse: Vec<(String, String)> = vec![]; // (header struct, member built with `value.parse()` from the HeaderMap)
+  let mut helper_ctors: Vec<(String, Value)> = vec![]; // (enum, {variant, boxed: the payload expression is `Box::new(..)`})
   for (fname, code) in files {
     let f = facts::file_facts(code);
     if let Some(e) = f.get("parse_error") {
@@ -249,8 +251,13 @@ pub fn digest(files: &std::collections::HashMap<&'static str, String>) -> Value 
           let mut refs = vec![];
           let mut evstream = false;
           let mut vnames = vec![];
+          let mut vboxed = vec![];
           for v in it["variants"].as_array().into_iter().flatten() {
             vnames.push(v["name"].clone());
+            let fs = strs(&v["fields"]);
+            if fs.len() == 1 {
+              vboxed.push(json!({"variant": v["name"], "boxed": fs[0].starts_with("Box<")}));
+            }
             for t in strs(&v["fields"]) {
               evstream |= t.contains("EventStream");
               refs.extend(refs_of(&t).0);
@@ -258,7 +265,7 @@ pub fn digest(files: &std::collections::HashMap<&'static str, String>) -> Value 
           }
           let fields = vec![json!({"name": "", "refs": refs, "nested": false, "sep": false, "sepStr": false})];
           items.push(json!({"file": fname, "kind": "enum", "name": name, "vis": it["vis"], "ser": has("Serialize"), "de": has("Deserialize"),
-            "val": false, "bare": derives.iter().filter(|d| !d.contains("::")).collect::<Vec<_>>(), "fields": fields, "variants": vnames, "evstream": evstream, "respEnum": !has("PartialEq") && !has("Serialize") && !has("Deserialize")}));
+            "val": false, "bare": derives.iter().filter(|d| !d.contains("::")).collect::<Vec<_>>(), "fields": fields, "variants": vnames, "vboxed": vboxed, "dflt": has("Default"), "evstream": evstream, "respEnum": !has("PartialEq") && !has("Serialize") && !has("Deserialize")}));
         }
         "type" => {
           let (refs, _) = refs_of(it["ty"].as_str().unwrap_or(""));
@@ -278,6 +285,36 @@ pub fn digest(files: &std::collections::HashMap<&'static str, String>) -> Value 
                 for part in body.split("Some(value)=&headers.").skip(1) {
                   let f: String = part.chars().take_while(|c| c.is_alphanumeric() || *c == '_' || *c == '#').collect();
                   hdr_opt.push((x.clone(), f));
+                }
+              }
+            }
+          }
+          // `impl TryFrom<&http::HeaderMap> for X`: which members are built with `value.parse()` (needs `FromStr`)?
+          if tr.starts_with("core::convert::TryFrom<&http::HeaderMap>") || tr.starts_with("TryFrom<&http::HeaderMap>") {
+            for m in it["methods"].as_array().into_iter().flatten() {
+              let body = m["body"].as_str().unwrap_or("");
+              let parts: Vec<&str> = body.split(":headers.get(").collect();
+              for i in 0..parts.len().saturating_sub(1) {
+                let f: String = parts[i].chars().rev().take_while(|c| c.is_alphanumeric() || *c == '_' || *c == '#').collect::<String>().chars().rev().collect();
+                // the member's own expression ends where the next member's `,name:headers.get(` starts
+                let own = if i + 2 == parts.len() { parts[i + 1] } else { &parts[i + 1][..parts[i + 1].rfind(',').unwrap_or(parts[i + 1].len())] };
+                if own.contains(".parse()") {
+                  hdr_parse.push((name.clone(), f));
+                }
+              }
+            }
+          }
+          // helper constructors of enums: `fn f(..) -> Self { Self::V(<expr>) }` — is the payload expression boxed?
+          if tr.is_empty() {
+            for m in it["methods"].as_array().into_iter().flatten() {
+              let body = m["body"].as_str().unwrap_or("");
+              if m["output"] == "Self" {
+                if let Some(rest) = body.strip_prefix("{Self::") {
+                  let v: String = rest.chars().take_while(|c| c.is_alphanumeric() || *c == '_').collect();
+                  let after = &rest[v.len()..];
+                  if after.starts_with('(') {
+                    helper_ctors.push((name.clone(), json!({"variant": v, "boxed": after.starts_with("(Box::new(")})));
+                  }
                 }
               }
             }
@@ -320,6 +357,7 @@ pub fn digest(files: &std::collections::HashMap<&'static str, String>) -> Value 
       for fd in it["fields"].as_array_mut().into_iter().flatten() {
         let fname = fd["name"].as_str().unwrap_or("").to_string();
         fd["hdrOpt"] = json!(hdr_opt.iter().any(|(x, f)| *x == sname && *f == fname));
+        fd["hdrParse"] = json!(hdr_parse.iter().any(|(x, f)| *x == sname && *f == fname));
       }
     }
   }
@@ -334,10 +372,18 @@ pub fn digest(files: &std::collections::HashMap<&'static str, String>) -> Value 
             "Deserialize" => it["de"] = json!(true),
             "Validate" => it["val"] = json!(true),
             "IntoResponse" => it["intoResp"] = json!(true),
+            "FromStr" => it["fromStr"] = json!(true),
+            "Default" => it["dflt"] = json!(true),
             _ => {}
           }
         }
       }
+    }
+  }
+  for it in &mut items {
+    if it["kind"] == "enum" {
+      let n = it["name"].as_str().unwrap_or("").to_string();
+      it["helperCtors"] = json!(helper_ctors.iter().filter(|(e, _)| *e == n).map(|(_, v)| v.clone()).collect::<Vec<_>>());
     }
   }
   json!({"items": items, "imports": imports, "mentions": mentions, "parse_errors": parse_errors})
